@@ -18,11 +18,13 @@ def reg_cfg(depth, emit, vals=(0,)):
     return "\n".join(c) + "\n"
 
 
-def validate(ctx, recs, label, nch=None):
+def validate(ctx, recs, label, nch=None, truth=None):
     total = sum(len(r.events) for r in recs)
     nch = nch or max(1, min(12, total // 6000))
     jobs, metas = [], []
     for ci, ch in enumerate(chunks(recs, nch)):
+        if truth is not None:
+            ch = [truth] + list(ch)      # every file starts with the reference evaluations (each on an instance of its own)
         events = [e for r in ch for e in r.events]
         path = ctx.path("%s-%d.ndjson" % (label, ci))
         write_ndjson(path, events)
@@ -140,6 +142,39 @@ def run(ctx):
             for pt in pool + [first]:
                 rec.eval(1, pt, "obj", rep=rng.choice(["f64", "f64", "list"]))
             recs.append(rec)
+    # integer lattice points of the box (several of them on ONE instance, in opposite orders on two siblings): coordinates such as
+    # -1 and -2, 0 and -0.0, 1 and True-like values collide under careless keys (hash(-1) == hash(-2) in CPython)
+    import itertools as _it
+    for fam in (ALL if not qk else CHEAP + ["GKLS2", "Grishagin"]):
+        m = fams[fam][1][0]
+        rec = ProblemRec("lattice")
+        rec.construct(fam, m, with_meta=False)
+        rec.construct(fam, m, with_meta=False)
+        p_ = rec.insts[-1][2]
+        if p_ is None:
+            continue
+        los = [float(t) for t in p_.lowerBoundOfFloatVariables]
+        ups = [float(t) for t in p_.upperBoundOfFloatVariables]
+        per = [[float(v) for v in range(int(-(-a // 1)), int(b // 1) + 1)][:6] for a, b in zip(los, ups)]
+        if any(not v for v in per):
+            continue
+        lattice = [[v[min(i, len(v) - 1)] for v in per] for i in range(max(len(v) for v in per))]
+        lattice += [[rng.choice(v) for v in per] for _ in range(4)]
+        if any(-0.0 in v or 0.0 in v for v in per):
+            lattice.append([-0.0 if 0.0 in v else v[0] for v in per])
+        # each lattice point first on an instance of its own (what a pure function returns), then all of them on one instance, in
+        # opposite orders on a sibling
+        distinct = [list(t) for t in sorted({tuple(pt) for pt in lattice})]
+        for pt in distinct:
+            k = rec.construct(fam, m, with_meta=False)
+            rec.eval(k, pt, "obj")
+        for pt in lattice:
+            rec.eval(1, pt, "obj")
+        for pt in reversed(lattice):
+            rec.eval(2, pt, "obj")
+        for pt in lattice:
+            rec.eval(2, pt, "obj", rep=rng.choice(["f64", "ints", "list"]))
+        recs.append(rec)
     # problems with several functions (StronginC3: objective + 3 constraints): every function at every pool point, in several
     # orders, on two sibling instances - a value must not depend on which OTHER function was evaluated at the point before
     fids = ["obj", 0, 1, 2]
@@ -156,7 +191,17 @@ def run(ctx):
                 for fid in order:
                     rec.eval(k, pt, fid, reuse=rng.random() < 0.3, holder=rng.choice(["fresh", "reused", "prefilled"]))
         recs.append(rec)
-    fails, stats = validate(ctx, recs, "c15")
+    # reference values: every pool point (every function) evaluated once, as the FIRST evaluation of an instance of its own - the
+    # memo of each trace file starts from these, so a value that is wrong but self-consistent on a long-lived instance is seen
+    truth = ProblemRec("reference")
+    for (fam, m), pool in sorted(pools.items(), key=repr):
+        for pt in pool:
+            for fid in (["obj", 0, 1, 2] if fam == "StronginC3" else ["obj"]):
+                k = truth.construct(fam, m, with_meta=False)
+                truth.eval(k, pt, fid)
+    fails, stats = validate(ctx, recs, "c15", truth=truth)
+    seen_fail = set()
+    fails = [f for f in fails if not ((id(f["rec"]), f["event"]["id"], f["clause"]) in seen_fail or seen_fail.add((id(f["rec"]), f["event"]["id"], f["clause"])))]
     for f in fails:
         if f["clause"] in FAMILY:
             r, e = f["rec"], f["event"]
